@@ -22,8 +22,9 @@
    well-formed circuits is stated separately (C03_*_total). *)
 Require Import Cirbo.Model.Base Cirbo.Model.Gate Cirbo.Model.Circuit Cirbo.Model.Eval Cirbo.Model.Sem
         Cirbo.Model.Passes Cirbo.Model.WF.
-Require Import Cirbo.Proofs.TraverseInv Cirbo.Proofs.PassRebuild Cirbo.Proofs.PassRR Cirbo.Proofs.PassPipeline
-        Cirbo.Proofs.PassAll.
+Require Import Cirbo.Proofs.TraverseInv Cirbo.Proofs.PassRebuild Cirbo.Proofs.PassRR Cirbo.Proofs.PassMU
+        Cirbo.Proofs.PassMD Cirbo.Proofs.PassPipeline Cirbo.Proofs.PassTotal Cirbo.Proofs.PassAll
+        Cirbo.Proofs.PassWitness.
 
 (* ---- RemoveRedundantGates() ---- *)
 Theorem C03_remove_redundant_gates : forall c c',
@@ -110,10 +111,63 @@ Theorem C03_rebuild_with_remap : forall c a R n,
   forall l, has_gate n l = true -> forall v, Eval n a l v <-> Eval c a l v.
 Proof. exact rebuild_sem. Qed.
 
-(* ---- totality ---- *)
+(* ---- "an identical truth table", on the executable get_truth_table: for every pipeline that
+   keeps the inputs (in particular each of RR(), MU, MD, ME alone, as [t]) and for cleanup ---- *)
+Theorem C03_pipeline_truth_table : forall c ts c' t t',
+  WF c -> arity_ok c -> forallb (all_leaves keep_of) ts = true -> apply_transformers c ts = Ok c' ->
+  get_truth_table c = Ok t -> get_truth_table c' = Ok t' -> t = t'.
+Proof. exact pipeline_truth_table. Qed.
+
+Theorem C03_cleanup_truth_table : forall c b c' t t',
+  WF c -> arity_ok c -> cleanup c b = Ok c' ->
+  get_truth_table c = Ok t -> get_truth_table c' = Ok t' -> t = t'.
+Proof. exact cleanup_truth_table. Qed.
+
+(* ---- totality: the passes and every pipeline return a circuit (no CircuitValidationError from
+   emplace_gate, no IndexError from the positional operand getters, no fuel exhaustion) ---- *)
 Theorem C03_remove_redundant_gates_total : forall air c,
   WF c -> exists c', remove_redundant_gates air c = Ok c'.
 Proof. exact rr_total. Qed.
+
+Theorem C03_merge_unary_operators_total : forall c,
+  WF c -> arity_ok c -> exists c', merge_unary_operators c = Ok c'.
+Proof. exact mu_total. Qed.
+
+Theorem C03_merge_duplicate_gates_total : forall c,
+  WF c -> exists c', merge_duplicate_gates c = Ok c'.
+Proof. exact md_total. Qed.
+
+Theorem C03_merge_equivalent_gates_total : forall c,
+  WF c -> arity_ok c -> exists c', merge_equivalent_gates c = Ok c'.
+Proof. exact me_total. Qed.
+
+Theorem C03_pipeline_total : forall c ts,
+  WF c -> arity_ok c -> exists c', apply_transformers c ts = Ok c'.
+Proof. exact pipeline_total. Qed.
+
+Theorem C03_cleanup_total : forall c b,
+  WF c -> arity_ok c -> exists c', cleanup c b = Ok c'.
+Proof. exact cleanup_total. Qed.
+
+(* ---- the two restrictions in the statements above are necessary ---- *)
+(* MergeEquivalentGates does NOT preserve the three-valued function.  me_wit: x input; nx = NOT x;
+   g = AND(x, nx); k = ALWAYS_FALSE; outputs g, k.  g and k have the same truth table, the output k
+   is replaced by g; with x undefined g is Undefined while k was False *)
+Theorem C03_merge_equivalent_gates_three_valued_refuted :
+  WF me_wit /\ (forall l g, dget (gates me_wit) l = Some g -> gtyp g <> INPUT ->
+                            Den.den_accepts (gtyp g) (length (gops g)) = true) /\
+  exists c', merge_equivalent_gates me_wit = Ok c' /\ outputs c' = ["g"; "g"] /\
+    ~ (forall v, Eval c' [] (nth 1 (outputs c') "") v <-> Eval me_wit [] (nth 1 (outputs me_wit) "") v).
+Proof. exact me_three_valued_refuted. Qed.
+
+(* MergeUnaryOperators needs arity_ok.  mu_wit: x input; y = AND(x) (ONE operand: evaluating it
+   raises TypeError); z = NOT x; l = LNOT(z, y); o = OR(l, x); output o.  l is remapped to its even
+   parent x: the result's o = OR(x, x) has a value, the argument's o has none *)
+Theorem C03_merge_unary_operators_arity_needed :
+  WF mu_wit /\
+  exists c', merge_unary_operators mu_wit = Ok c' /\ outputs c' = ["o"] /\
+    (exists v, Eval c' [] "o" v) /\ (forall v, ~ Eval mu_wit [] "o" v).
+Proof. exact mu_arity_needed. Qed.
 
 (* ---- non-vacuity: inputs a b u; n1 = NOT a; n2 = NOT n1; g1 = AND(n2,b); g2 = AND(b,n2);
    e = OR(g1,g2); d = NOT b (dead); outputs e, g2, n2 ---- *)
